@@ -188,3 +188,31 @@ def poisoned_empty(value):
         yield
     finally:
         numpy.empty = real
+
+
+# --------------------------------------------------------------------------- unusual but legal spellings of the input path
+
+VIAS = [None, None, None, None, "symlink_dotdot", "glob_dir", "space_dir", "unicode_dir"]
+
+
+def place_plotfile(write_fn, via, decoy_fn=None):
+    """Writes a plotfile (write_fn(path)) into the current scratch directory and returns the path to hand to the tool.
+
+    symlink_dotdot: the plotfile is a/src, named lnk/../src with lnk -> a/b (a lexical collapse of '..' would give ./src,
+    where decoy_fn, when given, writes other data on the same mesh); glob_dir / space_dir / unicode_dir: parent directory
+    names with glob metacharacters, blanks and brackets, non-ASCII letters."""
+    if via is None:
+        write_fn("src")
+        return "src"
+    if via == "symlink_dotdot":
+        os.makedirs("a/b")
+        os.symlink(os.path.join("a", "b"), "lnk")
+        write_fn(os.path.join("a", "src"))
+        if decoy_fn is not None:
+            decoy_fn("src")
+        return os.path.join("lnk", "..", "src")
+    parent = {"glob_dir": "case[Re=100]*?", "space_dir": "my runs (old)", "unicode_dir": "r\u00e9sultats_\u03b1"}[via]
+    os.makedirs(parent)
+    path = os.path.join(parent, "plt00010")
+    write_fn(path)
+    return path
